@@ -43,17 +43,15 @@ Offs(n, L) == LET h == n \div 2
                   cand == IF Dense THEN {0, 1, 3, 4, 5, 7, 8, 9} \cup ((h - 10)..(h + 5)) \cup {n - L - 1, n - L}
                           ELSE {0, 4, h - 7, h - 4, h - 1, h + 3, n - L}
               IN {o \in cand : o >= 0 /\ o + L <= n}
-Descs == {OneRun(n, L, o) : <<n, L, o>> \in {t \in Ns \X (Ls \cup {1}) \X (0..400) : t[2] <= t[1] /\ t[3] \in Offs(t[1], t[2])}}
-         \cup {OneRun(n, n, 0) : n \in Ns}
-         \cup {TwoRuns(n, 8, 9, o) : <<n, o>> \in {t \in Ns \X (0..400) : 17 <= t[1] /\ t[2] \in Offs(t[1], 17)}}
-InitDesc == keys = <<>> /\ hi = 0 /\ runs \in Descs
-NextDesc == UNCHANGED gvars
+DescsFor(n) == {OneRun(n, L, o) : <<L, o>> \in {t \in (Ls \cup {1}) \X (0..400) : t[1] <= n /\ t[2] \in Offs(n, t[1])}}
+               \cup {OneRun(n, n, 0)}
+               \cup (IF n >= 17 THEN {TwoRuns(n, 8, 9, o) : o \in Offs(n, 17)} ELSE {})
+\* one initial state per page size, its descriptors as successors (so that several workers share the work)
+InitDesc == keys = <<>> /\ hi \in Ns /\ runs = <<>>
+NextDesc == runs = <<>> /\ runs' \in DescsFor(hi) /\ UNCHANGED <<keys, hi>>
 SpecDesc == InitDesc /\ [][NextDesc]_gvars
-DescCase == LET ps == DescProbes(runs)
-                n == NKeysOf(runs)
-            IN [runs |-> runs, n |-> n,
-                keys |-> IF n <= MetaMax THEN ExpandRuns(runs) ELSE <<>>,
-                probes |-> [i \in DOMAIN ps |-> [run |-> ps[i].run, j |-> ps[i].j, kind |-> ps[i].kind, r |-> Expected(runs, ps[i])]]]
-EmitDesc == PrintT(<<"T", ToJson(DescCase)>>)
-MetaDesc == NKeysOf(runs) <= MetaMax => DescriptorAgrees(runs)
+DescCase == LET n == NKeysOf(runs) IN
+            [runs |-> runs, n |-> n, keys |-> IF n <= MetaMax THEN ExpandRuns(runs) ELSE <<>>, answers |-> DescAnswers(runs)]
+EmitDesc == runs # <<>> => PrintT(<<"T", ToJson(DescCase)>>)
+MetaDesc == (runs # <<>> /\ NKeysOf(runs) <= MetaMax) => DescriptorAgrees(runs)
 =============================================================================
